@@ -91,11 +91,17 @@ func cmdCases(args []string) {
 	enc := json.NewEncoder(of)
 	sc := bufio.NewScanner(f)
 	sc.Buffer(make([]byte, 1<<20), 1<<28)
-	n, bad, known := 0, 0, 0
+	n, bad, known, deadlocks := 0, 0, 0, 0
+	aborted := false
 	var knownSample *CaseReplay
 	distinct := map[string]bool{}
 	var samples []any
 	for sc.Scan() {
+		if deadlocks >= 3 {
+			// every further deadlocking case costs a watchdog timeout; three are proof enough
+			aborted = true
+			break
+		}
 		var c CaseRec
 		if err := json.Unmarshal(sc.Bytes(), &c); err != nil {
 			die(2, "case line %d: %v", n+1, err)
@@ -108,7 +114,7 @@ func cmdCases(args []string) {
 		}
 		ej, _ := json.Marshal(exp)
 		distinct[string(ej)] = true
-		if !reflect.DeepEqual(normEmpty(exp), normEmpty(got)) && c.Alt != nil && reflect.DeepEqual(normEmpty(c.Alt), normEmpty(got)) {
+		if !agrees(exp, got) && c.Alt != nil && reflect.DeepEqual(normEmpty(c.Alt), normEmpty(got)) {
 			// wrong, but exactly the listed as-built outcome for this input
 			known++
 			if knownSample == nil {
@@ -117,7 +123,10 @@ func cmdCases(args []string) {
 					Class:  fmt.Sprintf("%s/%s/asbuilt", *prop, *fn),
 					Detail: []string{fmt.Sprintf("expected %s", ej), fmt.Sprintf("observed (= as-built prediction) %s", gj)}}
 			}
-		} else if !reflect.DeepEqual(normEmpty(exp), normEmpty(got)) {
+		} else if !agrees(exp, got) {
+			if m, ok := got.(map[string]any); ok && m["DEADLOCK"] != nil {
+				deadlocks++
+			}
 			bad++
 			if bad <= *maxrep {
 				gj, _ := json.Marshal(got)
@@ -132,7 +141,23 @@ func cmdCases(args []string) {
 	if knownSample != nil {
 		_ = enc.Encode(knownSample)
 	}
-	writeJSON(*summ, map[string]any{"cases": n, "mismatches": bad, "known_asbuilt": known, "distinct_expected": len(distinct), "samples": samples})
+	writeJSON(*summ, map[string]any{"cases": n, "mismatches": bad, "known_asbuilt": known, "distinct_expected": len(distinct), "samples": samples,
+		"aborted_after_deadlocks": aborted})
+}
+
+// agrees: equality, or membership when the expectation is {"anyof": [...]}
+func agrees(exp, got any) bool {
+	if m, ok := exp.(map[string]any); ok {
+		if l, ok := m["anyof"].([]any); ok && len(m) == 1 {
+			for _, e := range l {
+				if reflect.DeepEqual(normEmpty(e), normEmpty(got)) {
+					return true
+				}
+			}
+			return false
+		}
+	}
+	return reflect.DeepEqual(normEmpty(exp), normEmpty(got))
 }
 
 // normEmpty makes nil / empty list comparable
@@ -155,7 +180,7 @@ func replayCase(b []byte) {
 		die(2, "unknown function family %s", r.Fn)
 	}
 	got := safeEval(r.Fn, r.In, r.Arg)
-	if reflect.DeepEqual(normEmpty(r.Exp), normEmpty(got)) {
+	if agrees(r.Exp, got) {
 		fmt.Println("AGREES")
 		return
 	}
@@ -339,16 +364,21 @@ func cmdTreeGen(args []string) {
 	if gens == nil {
 		die(2, "no random generator for %s", *fn)
 	}
-	for i := 0; i < *n; i++ {
+	made, deadlocks := 0, 0
+	for i := 0; i < *n && deadlocks < 3; i++ {
 		in, arg := gens(g)
 		in = toGeneric(in).(map[string]any)
 		rec := map[string]any{"in": in, "out": safeEval(*fn, in, arg)}
+		if m, ok := rec["out"].(map[string]any); ok && m["DEADLOCK"] != nil {
+			deadlocks++
+		}
+		made++
 		if arg != nil {
 			rec["arg"] = arg // TLC's Json module rejects null
 		}
 		_ = enc.Encode(rec)
 	}
-	fmt.Printf("{\"cases\": %d}\n", *n)
+	fmt.Printf("{\"cases\": %d}\n", made)
 }
 
 var treeGenerators = map[string]func(g *treeGen) (Node, any){
